@@ -24,13 +24,14 @@ type variant struct {
 	Old      string   `json:"old,omitempty"`
 	New      string   `json:"new,omitempty"`
 	Origin   string   `json:"origin"`
+	Quiet    bool     `json:"quiet,omitempty"` // a behaviour-preserving refactoring: NO rule may report it
 }
 
 type variantResult struct {
 	Name    string   `json:"name"`
 	Origin  string   `json:"origin"`
 	Rules   []string `json:"expect_rules"`
-	Outcome string   `json:"outcome"` // fired | MISSED | skipped(<why>) | error(<why>)
+	Outcome string   `json:"outcome"` // fired | MISSED | quiet | FALSE-ALARM | skipped(<why>) | error(<why>)
 	Fired   []string `json:"fired_rules,omitempty"`
 }
 
@@ -53,6 +54,27 @@ func loadVariants(prop string) []variant {
 			continue
 		}
 		out = append(out, variant{Name: "seed-" + m.ID, Prop: prop, Rules: m.Expected, Patch: filepath.Join(d, "patch.diff"), Origin: "seeded change (sub-agent)"})
+	}
+	// behaviour-preserving refactorings (sub-agents): the checks must stay silent on them
+	rdirs, _ := filepath.Glob(filepath.Join(*flagVerif, "refactorings", "*"))
+	sort.Strings(rdirs)
+	for _, d := range rdirs {
+		b, err := os.ReadFile(filepath.Join(d, "meta.json"))
+		if err != nil {
+			continue
+		}
+		var m struct {
+			ID       string   `json:"id"`
+			Relevant []string `json:"relevant_properties"`
+		}
+		if json.Unmarshal(b, &m) != nil {
+			continue
+		}
+		for _, r := range m.Relevant {
+			if r == prop {
+				out = append(out, variant{Name: "refactor-" + m.ID, Prop: prop, Quiet: true, Patch: filepath.Join(d, "patch.diff"), Origin: "behaviour-preserving refactoring (sub-agent)"})
+			}
+		}
 	}
 	// hand-written micro mutations
 	files, _ := filepath.Glob(filepath.Join(*flagVerif, "variants", prop+"-*.json"))
@@ -203,6 +225,14 @@ func runVariants(prop string) []variantResult {
 				r.Fired = append(r.Fired, k)
 			}
 			sort.Strings(r.Fired)
+			if v.Quiet {
+				r.Outcome = "quiet"
+				if len(viol) > 0 {
+					r.Outcome = "FALSE-ALARM"
+				}
+				res[i] = r
+				return
+			}
 			r.Outcome = "MISSED"
 			for _, want := range v.Rules {
 				if viol[want] {
